@@ -288,6 +288,11 @@ def curved_on_ground():
              ('mast+half-loop', [W(4, (3 * R, 0, 0), (3 * R, 0, 1.5 * R)), A(8, 0, 180)]),
              ('mast+quarter-arc', [W(4, (0, 0, 0), (0, 0, R)), A(5, 90, 0)]),
              ('quarter-arc+mast', [A(5, 0, 90), W(4, (0, 0, R), (0, 0, 0))])]
+    # arcs touching the plane with an *inner* segment end (no ground connection there): a 270 degree arc and a full circle
+    # standing on the plane
+    up = [0.0, 0.0, R]
+    cases += [('arc-270-standing', [dict(A(9, -180, 90), translate=up)]), ('circle-standing', [dict(A(12, 0, 360), translate=up)]),
+              ('circle-standing-beside-mast', [W(4, (3 * R, 0, 0), (3 * R, 0, 1.5 * R)), dict(A(12, 90, 450), translate=up)])]
     return [dict(f=f, ground=True, objs=o, family='ground-' + nm, lam=lam, seg=seg, fresh=True) for nm, o in cases]
 
 
